@@ -319,3 +319,44 @@ def fill_reference(system: str, given: dict) -> dict:
 def nonzero_pairs(system: str):
     S = SYSTEMS[system]
     return sorted(set(S["independent"]) | set(S["dependent"]))
+
+
+def fill_lsq(system: str, tabulated: dict):
+    """The symmetry fill of a table row whose tabulated components may OVER-determine the relations of
+    `system` and disagree with them slightly: the least-squares compromise between
+        one equation  x_p = value        per tabulated component, and
+        one equation  x_p - sum c*x_q = 0  per dependent component (SYSTEMS[system]["dependent"]),
+        one equation  x_p = 0            per component that vanishes by symmetry,
+    all with weight one (every relation written with coefficient one on its dependent component).
+    This is the operation `fill` documents ("disagreement allowed between the input components and
+    the constraints"): it is NOT the orthogonal projection onto the invariant subspace -- relations
+    that involve tabulated components stay violated by a fraction of the input disagreement.
+    For consistent input it equals fill_reference.  Returns ({pair: value} for all 21, sum of squared residuals)."""
+    import numpy
+    S = SYSTEMS[system]
+    idx = {p: k for k, p in enumerate(VOIGT_PAIRS)}
+    rows, rhs = [], []
+    for p, val in tabulated.items():
+        r = numpy.zeros(21)
+        r[idx[p]] = 1.0
+        rows.append(r)
+        rhs.append(float(val))
+    nz = set(S["independent"]) | set(S["dependent"])
+    for p, form in S["dependent"].items():
+        r = numpy.zeros(21)
+        r[idx[p]] = 1.0
+        for c, q in form:
+            r[idx[q]] -= c
+        rows.append(r)
+        rhs.append(0.0)
+    for p in VOIGT_PAIRS:
+        if p not in nz:
+            r = numpy.zeros(21)
+            r[idx[p]] = 1.0
+            rows.append(r)
+            rhs.append(0.0)
+    a, b = numpy.array(rows), numpy.array(rhs)
+    x, _, rank, _ = numpy.linalg.lstsq(a, b, rcond=None)
+    if rank < 21:
+        raise ValueError(f"{system}: tabulated components {sorted(tabulated)} do not determine the tensor")
+    return {p: float(x[idx[p]]) for p in VOIGT_PAIRS}, float(numpy.sum((a @ x - b) ** 2))
